@@ -225,8 +225,14 @@ MemVerdict(pm, ev, ty, liw) ==
       stable == e \in {"Col", "WorkFree"} \/ (e = "InitReturn" /\ ev.ret = 0)
       bad ==
         (IF stable /\ ~SaneStack(ev) THEN {"C08.stack_sane"} ELSE {})
+        \* the accounting is also consistent right after every granted growth request (what StackFull will test next)
+        \cup (IF e = "Expand" /\ ev.ok = 1 /\ Has(ev, "st") /\ ~SaneStack(ev) THEN {"C08.stack_accounting_after_growth"} ELSE {})
         \cup (IF stable /\ e # "WorkFree" /\ ~(ExValid(ev) /\ RegionsOrdered(ev, dw, liw)) THEN {"C08.regions_ordered"} ELSE {})
         \cup (IF e = "Col" /\ ~(ev.nextl <= ev.nz[3] /\ ev.nextlu <= ev.nz[1] /\ ev.nextu <= ev.nz[2]) THEN {"C08.cursor_in_capacity"} ELSE {})
+        \* the values and the subscripts of U grow together: one capacity (nzumax) for both arrays, and each array really has
+        \* the capacity the cursors are tested against
+        \cup (IF e = "Col" /\ Has(ev, "ex") /\ ExValid(ev) /\ ~(ev.ex[2][2] = ev.nz[2] /\ ev.ex[4][2] = ev.nz[2] /\ ev.ex[1][2] = ev.nz[1] /\ ev.ex[3][2] = ev.nz[3])
+              THEN {"C08.capacity_differs_from_array_length"} ELSE {})
         \cup (IF e = "UMalloc" /\ pm # <<>> /\ Has(pm, "st") /\ ev.ok = 1 /\
                  ~(ev.off >= pm.st[3] /\ ev.off + ev.bytes <= pm.st[4] /\ ev.st[2] = pm.st[2] + ev.bytes /\ ev.bytes >= 0)
               THEN {"C08.stack_push_accounting"} ELSE {})
